@@ -1151,7 +1151,7 @@ func main() {
 			"totality oracle: value or error, no panic; (nil, nil) results (e.g. UnMarshalBlockHeader on a malformed time blob) are counted, not judged",
 			"a serialiser refusing (error / nil bytes) an arbitrary or parsed value is counted, not judged; refusing a node-producible value is a violation",
 			"ConsensusHandler.Handle recovers panics of the consensus decoders; the two exported decoders are judged at function level, Handle itself for every consensus message code (nothing may escape)",
-			"receive handlers (core.SyncProcessor / core.ChainHandler HandleNetMessage, WorkerConn.handleMessage through hook H10) are part of the totality clause: any panic on bytes offered to them is a violation C09:handler:<topic>:panic:<frame>; only exception (DESIGN 8.6): the panicking source line is the 'Sign verify error' log statement that calls e.Error() on the nil decode error, i.e. the decoder accepted the bytes and signature validation failed",
+			"receive handlers (core.SyncProcessor / core.ChainHandler HandleNetMessage, WorkerConn.handleMessage through hook H10) are part of the totality clause: any panic on bytes offered to them is a violation C09:handler:<topic>:panic:<frame>; the former exception (the 'Sign verify error' log statements that called e.Error() on the nil decode error, hit by every well-formed message with a bad signature) was repaired in /repo 71a7787 and matches nothing any more",
 			"validly signed sync requests are not offered: the handlers would answer through the network instance, which is not started in the harness (send blocks on a nil channel)",
 		},
 		MustObserve: must,
